@@ -33,6 +33,8 @@ func partsOf(toks []*html.Token) []any {
 }
 
 // C01: markup without directives is reproduced unchanged.
+var epCount int
+
 func propC01(c *ctx) error {
 	res := c.res
 	res.Rule = "directive-free documents (nested, unbalanced, unclosed, void, self-closing, raw-text elements with hostile content, entities, multi-line values, Unicode) x configurations of raw-text and void element lists; exhaustive strings over a 9-symbol alphabet in the thorough tier; distinct = distinct (source, configuration); non-trivial = loads and has >= 2 tokens"
@@ -92,6 +94,19 @@ func propC01(c *ctx) error {
 		again := implRender(rc2, -1)
 		if again.Load != "ok" || again.St != "ok" || again.text() != out {
 			res.violate(cs, out, J{"st": again.St, "out": again.text()}, "rendering the output again changes it")
+		}
+		// (4) the same through the convenience entry points, repeatedly and after renders of OTHER templates that failed
+		// half-way (one case in eight: it loads the source once more)
+		if epCount++; epCount%8 == 0 {
+			if m, lerr, p := implLoad(rc, nil); lerr == nil && p == nil {
+				if t, gerr := m.tm.GetTemplate("t"); gerr == nil {
+					res.S3Checked++
+					res.count("entry_point_histories")
+					if why := entryPointHistory(t, nil, out, false, nil, 3, epCount%16 == 0); why != "" {
+						res.violate(cs, out, why, "RenderToBytes / RenderToString of a directive-free template do not reproduce what Execute writes")
+					}
+				}
+			}
 		}
 		return nil
 	}
